@@ -167,6 +167,7 @@ pub fn gen_cfg(rng: &mut Rng, o: &CfgOpts) -> DispCfg {
             refresh: rng.below(4) as u8,
             invert: rng.bool(),
             rst: rng.bool(),
+            order: if rng.bool() { 0 } else { rng.below(10_080) as u16 },
         };
     }
 }
@@ -715,11 +716,33 @@ pub fn last_visible_index(r: &Rect, lw: i64, lh: i64) -> Option<u64> {
 pub fn gen_program(rng: &mut Rng, cfg: &DispCfg, o: &ProgOpts) -> Vec<Op> {
     let mut tags = TagGen::new(rng);
     let mut ori = cfg.ori;
-    let mut prog = Vec::new();
+    let mut prog: Vec<Op> = Vec::new();
     let calls = rng.range(1, o.max_calls);
     while (prog.len() as i64) < calls {
         let (lw, lh) = if ori.rot() & 1 == 0 { (cfg.w as i64, cfg.h as i64) } else { (cfg.h as i64, cfg.w as i64) };
         let r = rng.below(20);
+        if r == 2 && prog.len() >= 2 {
+            // repeat an earlier drawing call verbatim (identical window, e.g. right after an
+            // orientation change: caches keyed on the window must not survive it)
+            let j = rng.below(prog.len() as u64) as usize;
+            if prog[j].is_draw() && !matches!(prog[j], Op::TestImage) {
+                let (plw, plh) = (lw, lh);
+                let fits = match prog[j].clone() {
+                    Op::SetPixel { x, y, .. } => (x as i64) < plw && (y as i64) < plh,
+                    Op::SetPixels { ex, ey, .. } => (ex as i64) < plw && (ey as i64) < plh,
+                    Op::DrawIter { pixels } => o.mode == Mode::Hostile || pixels.iter().all(|(x, y, _)| (*x as i64) < plw && (*y as i64) < plh),
+                    Op::FillContiguous { rect, .. } | Op::FillSolid { rect, .. } => {
+                        o.mode == Mode::Hostile || (rect.x as i64 + rect.w as i64 <= plw && rect.y as i64 + rect.h as i64 <= plh)
+                    }
+                    _ => true,
+                };
+                if fits {
+                    let op = prog[j].clone();
+                    prog.push(op);
+                    continue;
+                }
+            }
+        }
         if r == 0 && o.allow_orient {
             ori = Ori(rng.below(8) as u8);
             prog.push(Op::SetOrientation(ori));
